@@ -8,7 +8,9 @@
     price amounts are nonnegative, and an offered fee holds no coin twice ([NoDup], sdk.Coins). *)
 From Coq Require Import ZArith List String Ascii Permutation Lia.
 Import ListNotations.
-From PV Require Import Exchange.Arith Exchange.ReqAttr Exchange.FeeCheck Exchange.AdmitSpec Proofs.C20Proofs.
+From Coq Require Import Sorted Bool.
+From PV Require Import Exchange.Arith Exchange.ReqAttr Exchange.FeeCheck Exchange.AdmitSpec Proofs.C20Proofs
+     Proofs.C20Defs Proofs.C20Coins Proofs.C20Norm Proofs.C20Updates Proofs.C20Fills Proofs.C20Quotes Proofs.C20QuoteSpec.
 Open Scope Z_scope.
 
 (** A flat fee requirement (order / commitment creation, seller settlement flat fee) is passed
@@ -111,7 +113,7 @@ Print Assumptions C20_levels_match.
     lists (the create-commitment list included: the defect repaired by 7843b4934). *)
 Theorem C20_created_market_requires_normalised : forall m s,
   create_market m = Some s ->
-  s_mkt s = m /\
+  s_mkt s = clear_reqs m /\
   s_req_ask s = map normalize_name (map bytes_of (m_req_ask m)) /\
   s_req_bid s = map normalize_name (map bytes_of (m_req_bid m)) /\
   s_req_com s = map normalize_name (map bytes_of (m_req_com m)).
@@ -139,6 +141,283 @@ Theorem C20_admission_after_flag_updates : forall m s accs a (ups : list (bool *
 Proof. exact admission_after_flag_updates. Qed.
 Print Assumptions C20_admission_after_flag_updates.
 
+(** ** Offered coins: order and duplicate denoms (sdk.Coins validity) *)
+
+(** Coins.Validate (run by ValidateBasic of MsgCreateBid / MsgFillAsks on the buyer settlement
+    fees) accepts exactly the lists with positive amounts in strictly ascending denoms; such a
+    list holds no denom and no coin twice - the [NoDup] hypothesis of [C20_buyer_fee_iff]. *)
+Theorem C20_valid_coins_sorted_distinct : forall l,
+  (coins_valid l = true <->
+   Forall (fun c => 0 < amt_of c) l /\
+   StronglySorted (fun a b => String.ltb (denom_of a) (denom_of b) = true) l) /\
+  (coins_valid l = true -> NoDup (map denom_of l) /\ NoDup l).
+Proof. intros l. split; [exact (coins_valid_sorted l)|exact (coins_valid_nodup l)]. Qed.
+Print Assumptions C20_valid_coins_sorted_distinct.
+
+(** [C20_buyer_fee_iff] for every fee that a message can carry. *)
+Theorem C20_buyer_fee_iff_valid_coins : forall flats rs price fee,
+  ratios_wf rs -> 0 <= amt_of price -> coins_valid fee = true ->
+  (validate_buyer_settlement_fee flats rs price fee = true <->
+   (flats = [] /\ rs = []) \/
+   (flats <> [] /\ rs = [] /\
+      exists c f, In c fee /\ (get_flat flats (denom_of c) = Some f /\ f <= amt_of c)) \/
+   (flats = [] /\ rs <> [] /\
+      exists c x, In c fee /\
+        (exists r, get_ratio rs (denom_of price) (denom_of c) = Some r /\
+                   x = ceil_div (amt_of price * r_fa r) (r_pa r) /\ x <= amt_of c)) \/
+   (flats <> [] /\ rs <> [] /\
+      exists c1 c2 f x, In c1 fee /\ In c2 fee /\
+        (get_flat flats (denom_of c1) = Some f /\ f <= amt_of c1) /\
+        (exists r, get_ratio rs (denom_of price) (denom_of c2) = Some r /\
+                   x = ceil_div (amt_of price * r_fa r) (r_pa r) /\ x <= amt_of c2) /\
+        (c1 = c2 -> f + x <= amt_of c1))).
+Proof. exact buyer_fee_iff_valid_coins. Qed.
+Print Assumptions C20_buyer_fee_iff_valid_coins.
+
+(** What the five message handlers decide (ValidateBasic, then the keeper checks) equals the
+    declarative rule [admit_spec_msg] = the request is well-formed (positive price; fee coins
+    positive, ascending, no denom twice; single fee coins not negative / not zero where the
+    message says so) and [admit_spec] holds - for EVERY request, no side condition. *)
+Theorem C20_message_admission_iff : forall m accs a,
+  market_wf m ->
+  admits_msg (create_market m) accs a = admit_spec_msg (is_some (create_market m)) m accs a.
+Proof. exact admission_msg_eq. Qed.
+Print Assumptions C20_message_admission_iff.
+
+(** ** Configuration changes after creation *)
+
+(** After ANY sequence of MsgGovManageFees (add / remove flat options and ratios of every fee
+    kind, commitment bips; a message failing ValidateBasic changes nothing), MsgMarketManageReqAttrs
+    (add / remove required attributes for asks, bids, commitments; an unauthorised, malformed or
+    inapplicable message changes nothing) and flag updates, what the handlers decide on the
+    changed store ([step_stored], the transcription) is the declarative rule evaluated on the
+    changed configuration ([step_cfg]). *)
+Theorem C20_admission_after_config_updates : forall m s accs a (ops : list cfg_op),
+  market_wf m -> create_market m = Some s ->
+  admits_msg (Some (fold_left step_stored ops s)) accs a =
+  admit_spec_msg true (fold_left step_cfg ops m) accs a.
+Proof. exact admission_after_config_updates. Qed.
+Print Assumptions C20_admission_after_config_updates.
+
+(** The same for the checks after ValidateBasic (the exported keeper methods). *)
+Theorem C20_admission_after_config_updates_keeper : forall m s accs a (ops : list cfg_op),
+  market_wf m -> action_wf a -> create_market m = Some s ->
+  admits (Some (fold_left step_stored ops s)) accs a =
+  admit_spec true (fold_left step_cfg ops m) accs a.
+Proof. exact admission_after_config_updates_keeper. Qed.
+Print Assumptions C20_admission_after_config_updates_keeper.
+
+(** nametypes.NormalizeName is idempotent (ASCII names). *)
+Theorem C20_normalize_name_idempotent : forall s, normalize_name (normalize_name s) = normalize_name s.
+Proof. exact normalize_name_idem. Qed.
+Print Assumptions C20_normalize_name_idempotent.
+
+(** After any sequence of changes each of the three stored lists holds only fixed points of
+    NormalizeName that pass IsValidReqAttr, and no entry twice. *)
+Theorem C20_manage_req_attrs_normalised : forall m s (ops : list cfg_op),
+  create_market m = Some s ->
+  let s' := fold_left step_stored ops s in
+  (Forall (fun e => normalize_name e = e /\ is_valid_req_attr e = true) (s_req_ask s') /\ NoDup (s_req_ask s')) /\
+  (Forall (fun e => normalize_name e = e /\ is_valid_req_attr e = true) (s_req_bid s') /\ NoDup (s_req_bid s')) /\
+  (Forall (fun e => normalize_name e = e /\ is_valid_req_attr e = true) (s_req_com s') /\ NoDup (s_req_com s')).
+Proof. exact manage_req_attrs_normalised. Qed.
+Print Assumptions C20_manage_req_attrs_normalised.
+
+(** ... and they are the normalised forms of the configuration as written and changed. *)
+Theorem C20_stored_is_normalised_configuration : forall m s (ops : list cfg_op),
+  market_wf m -> create_market m = Some s ->
+  let m' := fold_left step_cfg ops m in
+  let s' := fold_left step_stored ops s in
+  s_req_ask s' = map normalize_name (map bytes_of (m_req_ask m')) /\
+  s_req_bid s' = map normalize_name (map bytes_of (m_req_bid m')) /\
+  s_req_com s' = map normalize_name (map bytes_of (m_req_com m')).
+Proof. exact stored_is_normalised_configuration. Qed.
+Print Assumptions C20_stored_is_normalised_configuration.
+
+(** What an accepted list change (keeper.updateReqAttrs) does: afterwards exactly the old entries
+    that were not removed, and the additions, are required. *)
+Theorem C20_required_attribute_change : forall cur rem add l' e,
+  update_req_attrs cur rem add = Some l' ->
+  (In e l' <-> (In e cur /\ ~ In e rem) \/ In e add).
+Proof. exact update_req_attrs_members. Qed.
+Print Assumptions C20_required_attribute_change.
+
+(** Fee changes keep what the store guarantees ([market_ok]: one flat option per denom, all
+    positive; one ratio per denom pair, positive price amounts, nonnegative fee amounts), so the
+    quote theorems below apply to every market reachable by configuration changes. *)
+Theorem C20_config_updates_keep_market_ok : forall (ops : list cfg_op) m,
+  market_ok m -> market_ok (fold_left step_cfg ops m).
+Proof. exact steps_ok. Qed.
+Print Assumptions C20_config_updates_keep_market_ok.
+
+(** ** User fills, in full *)
+
+(** [carries raw accs]: every attribute of the list as written is matched (level-wise, after
+    normalisation) by an attribute of the account.  [flat_met opts fee]: there is no option, or
+    the coin offered is in the denom of an option with at least its amount.
+    [seller_ratio_known rs d]: no seller ratio at all, or one for the denom. *)
+Theorem C20_fill_admission_iff : forall m s accs ok prices tprice sflat sfees cfee,
+  market_wf m -> stored_of m s ->
+  (* MsgFillBids: the filler acts as a seller *)
+  (admits_msg (Some s) accs (AFillBids ok prices sflat cfee) = true <->
+   (forall c, sflat = Some c -> 0 < amt_of c) /\ (forall c, cfee = Some c -> 0 < amt_of c) /\
+   m_accepting_orders m = true /\ m_user_settle m = true /\
+   carries (m_req_ask m) accs /\
+   flat_met (m_create_ask m) cfee /\ flat_met (m_seller_flat m) sflat /\
+   ok = true /\
+   (forall p, In p prices -> seller_ratio_known (m_seller_ratios m) (denom_of p))) /\
+  (* MsgFillAsks: the filler acts as a buyer; the buyer settlement fees are judged on the TOTAL price *)
+  (admits_msg (Some s) accs (AFillAsks ok tprice sfees cfee) = true <->
+   0 < amt_of tprice /\ coins_valid sfees = true /\ (forall c, cfee = Some c -> 0 < amt_of c) /\
+   m_accepting_orders m = true /\ m_user_settle m = true /\
+   carries (m_req_bid m) accs /\
+   flat_met (m_create_bid m) cfee /\
+   buyer_fee_spec (m_buyer_flat m) (m_buyer_ratios m) tprice sfees = true /\
+   ok = true /\
+   seller_ratio_known (m_seller_ratios m) (denom_of tprice)).
+Proof.
+  intros m s accs ok prices tprice sflat sfees cfee W S. split;
+    [exact (fill_bids_admission_iff m s accs ok prices sflat cfee W S)
+    |exact (fill_asks_admission_iff m s accs ok tprice sfees cfee W S)].
+Qed.
+Print Assumptions C20_fill_admission_iff.
+
+(** A partially open market: accepting orders off, or user settlement off, refuses every fill. *)
+Theorem C20_fills_refused_when_closed : forall m s accs a,
+  stored_of m s -> (m_accepting_orders m = false \/ m_user_settle m = false) ->
+  match a with AFillBids _ _ _ _ | AFillAsks _ _ _ _ => admits_msg (Some s) accs a = false | _ => True end.
+Proof. exact fills_refused_when_closed. Qed.
+Print Assumptions C20_fills_refused_when_closed.
+
+(** ** OrderFeeCalc quotes exactly what admission demands *)
+
+(** What the query answers (as transcribed) is the declarative quote: the market's tables and the
+    ceiling charges of the ratios for the price denom, failing exactly when the market has ratios
+    of that side but none for the price denom. *)
+Theorem C20_order_fee_calc_is_required_fees : forall m s price,
+  market_wf m -> stored_of m s -> 0 <= amt_of price ->
+  quote_ask (Some s) price = quote_ask_spec true m price /\
+  quote_bid (Some s) price = quote_bid_spec true m price.
+Proof.
+  intros m s price W S Hp. split; [exact (quote_ask_is_spec m s price W S Hp)|exact (quote_bid_is_spec m s price W S Hp)].
+Qed.
+Print Assumptions C20_order_fee_calc_is_required_fees.
+
+(** Ask side: the creation and seller flat options quoted are the market's tables, each quoted
+    option passes its check, one unit less does not ([C20_flat_quote_minus_one]), and the ask is
+    refused for its price exactly when the price does not exceed the flat fee (when paid in the
+    price denom) plus the QUOTED ratio fee. *)
+Theorem C20_ask_quote_exact : forall m s price C F R,
+  market_wf m -> stored_of m s -> 0 < amt_of price ->
+  quote_ask (Some s) price = Some (C, F, R) ->
+  C = m_create_ask m /\ F = m_seller_flat m /\
+  (forall c, pick C c -> validate_flat_fee (m_create_ask m) c = true) /\
+  (forall f, pick F f -> validate_flat_fee (m_seller_flat m) f = true) /\
+  (forall f, validate_ask_price (m_seller_ratios m) price f =
+             (flat_from_price price f + match R with [] => 0 | x :: _ => amt_of x end <? amt_of price)).
+Proof. exact ask_quote_exact. Qed.
+Print Assumptions C20_ask_quote_exact.
+
+Theorem C20_flat_quote_minus_one : forall opts d f,
+  flats_wf opts -> In (d, f) opts -> validate_flat_fee opts (Some (d, f - 1)) = false.
+Proof. exact flat_quote_minus_one. Qed.
+Print Assumptions C20_flat_quote_minus_one.
+
+Theorem C20_ask_quote_none : forall m s price accs sf cf,
+  market_wf m -> stored_of m s -> 0 < amt_of price ->
+  quote_ask (Some s) price = None -> admits (Some s) accs (ACreateAsk price sf cf) = false.
+Proof. exact ask_quote_none. Qed.
+Print Assumptions C20_ask_quote_none.
+
+(** Bid side, sufficiency: any quoted flat option together with any quoted ratio option of
+    positive amount, put together as sdk.NewCoins does ([offer]: one coin when the denoms
+    coincide), is a valid coin set and passes the buyer settlement fee check. *)
+Theorem C20_bid_quote_sufficient : forall m s price C F R f x,
+  market_ok m -> stored_of m s -> 0 < amt_of price ->
+  quote_bid (Some s) price = Some (C, F, R) -> pick F f -> pick R x ->
+  (forall c, x = Some c -> 0 < amt_of c) ->
+  C = m_create_bid m /\
+  coins_valid (offer f x) = true /\
+  validate_buyer_settlement_fee (m_buyer_flat m) (m_buyer_ratios m) price (offer f x) = true.
+Proof. exact bid_quote_sufficient. Qed.
+Print Assumptions C20_bid_quote_sufficient.
+
+(** Bid side, necessity: a valid coin set that passes the check offers, denom by denom, at least
+    one combination of the quoted options. *)
+Theorem C20_bid_quote_necessary : forall m s price fee,
+  market_ok m -> stored_of m s -> 0 < amt_of price -> coins_valid fee = true ->
+  validate_buyer_settlement_fee (m_buyer_flat m) (m_buyer_ratios m) price fee = true ->
+  exists C F R f x, quote_bid (Some s) price = Some (C, F, R) /\ pick F f /\ pick R x /\
+                    covers_coins fee (offer f x) = true.
+Proof. exact bid_quote_necessary. Qed.
+Print Assumptions C20_bid_quote_necessary.
+
+(** A fee of one coin passes exactly when it is at least the flat option of its denom (if the
+    market has flat options) plus the ceiling ratio charge for its denom (if it has ratios). *)
+Theorem C20_buyer_fee_single_coin : forall flats rs price d a,
+  ratios_wf rs -> flats_pos flats -> 0 <= amt_of price -> 0 < a ->
+  validate_buyer_settlement_fee flats rs price [(d, a)] =
+  match (match flats with [] => Some 0 | _ => get_flat flats d end),
+        (match rs with
+         | [] => Some 0
+         | _ => option_map (fun r => ceil_div (amt_of price * r_fa r) (r_pa r)) (get_ratio rs (denom_of price) d)
+         end) with
+  | Some fl, Some x => fl + x <=? a
+  | _, _ => false
+  end.
+Proof. exact buyer_fee_single_coin. Qed.
+Print Assumptions C20_buyer_fee_single_coin.
+
+(** One unit below the quoted flat + ratio of one denom, paid as one coin, is refused. *)
+Theorem C20_bid_quote_minus_one_single : forall m s price C F R d fl x,
+  market_ok m -> stored_of m s -> 0 < amt_of price ->
+  quote_bid (Some s) price = Some (C, F, R) ->
+  (F = [] /\ fl = 0 \/ In (d, fl) F) -> (R = [] /\ x = 0 \/ In (d, x) R) -> (F <> [] \/ R <> []) ->
+  validate_buyer_settlement_fee (m_buyer_flat m) (m_buyer_ratios m) price
+    (if 0 <? fl + x - 1 then [(d, fl + x - 1)] else []) = false.
+Proof. exact bid_quote_minus_one_single. Qed.
+Print Assumptions C20_bid_quote_minus_one_single.
+
+Theorem C20_bid_quote_none : forall m s price accs fees cf,
+  market_wf m -> stored_of m s -> 0 <= amt_of price ->
+  quote_bid (Some s) price = None -> admits (Some s) accs (ACreateBid price fees cf) = false.
+Proof. exact bid_quote_none. Qed.
+Print Assumptions C20_bid_quote_none.
+
+(** REFUTED without the positivity hypothesis of [C20_bid_quote_sufficient] (findings/C20.md):
+    for a buyer ratio whose fee amount is 0 the query quotes "0 <denom>"; a request paying exactly
+    the quoted options carries no coin for it (a zero coin is not a valid coin) and is refused. *)
+Theorem C20_bid_quote_zero_ratio_refuted :
+  exists s price C F R f x,
+    market_ok zq_market /\ create_market zq_market = Some s /\ 0 < amt_of price /\
+    quote_bid (Some s) price = Some (C, F, R) /\ pick F f /\ pick R x /\
+    x = Some ("bcoin"%string, 0) /\
+    validate_buyer_settlement_fee (m_buyer_flat zq_market) (m_buyer_ratios zq_market) price (offer f x) = false /\
+    admits_msg (Some s) [] (ACreateBid price (offer f x) None) = false.
+Proof. exact bid_quote_zero_ratio_refuted. Qed.
+Print Assumptions C20_bid_quote_zero_ratio_refuted.
+
+(** ** Commitment settlement fee quote *)
+
+(** CommitmentSettlementFeeCalc and the fee step of MsgMarketCommitmentSettle run the same
+    function ([commitment_quote]); it is defined exactly when the market has no bips, or has an
+    intermediary denom, a NAV from it to the fee denom (unless they coincide) and a NAV to the
+    intermediary denom for every input denom other than these two.  Without bips nothing is charged. *)
+Theorem C20_commitment_quote_defined_iff : forall mk fd navs total,
+  let m := s_mkt (tables mk) in
+  commitment_quote mk fd navs total <> None <->
+  m_bips m = 0 \/
+  (m_interm m <> ""%string /\
+   (m_interm m = fd \/ lookup_nav navs (m_interm m) fd <> None) /\
+   (forall c, In c total -> denom_of c = fd \/ denom_of c = m_interm m \/ lookup_nav navs (denom_of c) (m_interm m) <> None)).
+Proof. exact commitment_quote_defined_iff. Qed.
+Print Assumptions C20_commitment_quote_defined_iff.
+
+Theorem C20_commitment_quote_no_bips : forall mk fd navs total,
+  m_bips (s_mkt (tables mk)) = 0 -> commitment_quote mk fd navs total = Some None.
+Proof. exact commitment_quote_no_bips. Qed.
+Print Assumptions C20_commitment_quote_no_bips.
+
 (** Non-vacuity: a well-formed market with flat and ratio buyer fees, a wildcard and an
     un-normalised commitment attribute; an account that is admitted for a bid paying
     flat + ratio in one coin, refused one unit below, admitted for a commitment. *)
@@ -148,7 +427,8 @@ Definition ex_market : market :=
      m_buyer_flat := [("acoin"%string, 10)];
      m_buyer_ratios := [ {| r_pd := "pcoin"; r_pa := 3; r_fd := "acoin"; r_fa := 2 |} ];
      m_accepting_orders := true; m_user_settle := true; m_accepting_commitments := true;
-     m_req_ask := []; m_req_bid := ["*.KYC.prov "%string]; m_req_com := [" KYC.Prov "%string] |}.
+     m_req_ask := []; m_req_bid := ["*.KYC.prov "%string]; m_req_com := [" KYC.Prov "%string];
+     m_bips := 50; m_interm := "interm" |}.
 Definition ex_accs : list bytes := [bytes_of "buyer.kyc.prov"; bytes_of "kyc.prov"].
 
 Example C20_witness :
@@ -167,3 +447,34 @@ Proof.
     repeat split; repeat constructor; cbn; try lia; intros H; exact H.
   - vm_compute. repeat split.
 Qed.
+
+(** Non-vacuity of the update theorems: a fee message that replaces the buyer flat option and a
+    required-attribute message that swaps the bid requirement are both applied, and change who is
+    admitted and for how much. *)
+Definition ex_fee_msg : fee_msg :=
+  {| fm_add_create_ask := []; fm_rem_create_ask := []; fm_add_create_bid := []; fm_rem_create_bid := [];
+     fm_add_create_com := []; fm_rem_create_com := []; fm_add_seller_flat := []; fm_rem_seller_flat := [];
+     fm_add_seller_ratios := []; fm_rem_seller_ratios := [];
+     fm_add_buyer_flat := [("acoin"%string, 20)]; fm_rem_buyer_flat := [];
+     fm_add_buyer_ratios := []; fm_rem_buyer_ratios := []; fm_set_bips := 0; fm_unset_bips := true |}.
+Definition ex_attr_msg : attr_msg :=
+  {| am_auth := true; am_ask_add := []; am_ask_rem := [];
+     am_bid_add := [" Gold.Club"%string]; am_bid_rem := ["*.kyc.PROV"%string];
+     am_com_add := []; am_com_rem := [] |}.
+
+Example C20_update_witness :
+  let ops := [UFees ex_fee_msg; UAttrs ex_attr_msg] in
+  match create_market ex_market with
+  | Some s =>
+      let s' := fold_left step_stored ops s in
+      m_buyer_flat (s_mkt s') = [("acoin"%string, 20)] /\ m_bips (s_mkt s') = 0 /\
+      s_req_bid s' = [bytes_of "gold.club"] /\
+      admits_msg (Some s') ex_accs
+        (ACreateBid ("pcoin"%string, 100) [("acoin"%string, 87)] (Some ("acoin"%string, 3))) = false /\
+      admits_msg (Some s') [bytes_of "gold.club"]
+        (ACreateBid ("pcoin"%string, 100) [("acoin"%string, 87)] (Some ("acoin"%string, 3))) = true /\
+      admits_msg (Some s') [bytes_of "gold.club"]
+        (ACreateBid ("pcoin"%string, 100) [("acoin"%string, 86)] (Some ("acoin"%string, 3))) = false
+  | None => False
+  end.
+Proof. vm_compute. repeat split. Qed.
